@@ -64,7 +64,12 @@ def configure_logging(level_name):
     root = logging.getLogger()
     root.addHandler(handler)
     root.setLevel(get_level(level_name))
-    return root
+    return handler
+
+
+def set_verbosity(handler, level_name):
+    handler.setFormatter(ColorFormatter(fmt=LOGGING_FORMATS[level_name]))
+    logging.getLogger().setLevel(get_level(level_name))
 
 
 def init(project_dir):
@@ -125,8 +130,8 @@ def init(project_dir):
     "-v",
     "--verbose",
     type=click.Choice(["warning", "debug", "info", "error"]),
-    default="info",
-    help="Verbosity level.",
+    default=None,
+    help="Verbosity level (default: the `verbose` setting, or info).",
 )
 @click.option(
     "--no-color/--use-color", default=None, help="Enable or disable output colors."
@@ -141,7 +146,7 @@ def main(ctx, file, backend, verbose, no_color):
 
     Shows help for the status command.
     """
-    configure_logging(level_name=verbose)
+    log_handler = configure_logging(level_name=verbose or "info")
 
     try:
         path, obj_name = find_workflow(file)
@@ -160,6 +165,10 @@ def main(ctx, file, backend, verbose, no_color):
     working_dir.joinpath(".gwf", "logs").mkdir(exist_ok=True)
 
     config = FileConfig.load(working_dir.joinpath(".gwfconf.json"))
+
+    # The command line flag takes precedence over the project configuration.
+    if verbose is None and config.get("verbose") in LOGGING_FORMATS:
+        set_verbosity(log_handler, config["verbose"])
 
     # If the --use-color/--no-color argument is not set, get a value from the
     # configuration file. If nothing has been configured, check if the NO_COLOR
